@@ -131,8 +131,18 @@ pub fn spawn_stdin_listener(
     critical_window: CriticalWindow,
 ) {
     std::thread::spawn(move || {
-        let reader = BufReader::new(std::io::stdin());
-        for line in reader.lines().map_while(Result::ok) {
+        let mut reader = BufReader::new(std::io::stdin());
+        let mut raw = Vec::new();
+        loop {
+            // Read raw bytes, not `lines()`: a line that is not valid UTF-8 must
+            // be answered with a parse error like any other garbage, not end the
+            // listener (after which every later request would go unanswered).
+            raw.clear();
+            match reader.read_until(b'\n', &mut raw) {
+                Ok(0) | Err(_) => break,
+                Ok(_) => {}
+            }
+            let line = String::from_utf8_lossy(&raw);
             if let Some(resp) = dispatch(&config, Some(&stats), Some(&critical_window), line.trim())
             {
                 // Responses on stdin just go to stdout so scripts can pipe.
